@@ -926,7 +926,8 @@ void Run::exec_step(const Step &s) {
     case S_REINIT: do_reinit(chan); break;
     case S_SORTLIST: {
       static const char *sl[] = {"10.0.0.0/8", "10.1.0.0/255.255.0.0 10.0.0.0/8", "fd00::/8", "192.0.2.0/24 10.128.0.0/9", "10.0.0.0/9"};
-      if (chans[0].alive) { W.api_seq++; ares_set_sortlist(chans[0].ch, sl[(size_t)s.a % 5]); note("set_sortlist"); }
+      static const char *canon[] = {"10.0.0.0/8", "10.1.0.0/16,10.0.0.0/8", "fd00::/8", "192.0.2.0/24,10.128.0.0/9", "10.0.0.0/9"};
+      if (chans[0].alive) { W.api_seq++; int rc = ares_set_sortlist(chans[0].ch, sl[(size_t)s.a % 5]); note("set_sortlist"); if (rc == ARES_SUCCESS) user_set_later["sortlist"] = canon[(size_t)s.a % 5]; }
       break;
     }
     default:
